@@ -483,6 +483,13 @@ func newObservedMap(pass *analysishelper.EnhancedPass, files []*ast.File) *Obser
 			if len(decl.Recv.List) > 1 {
 				pass.Panic(fmt.Sprintf("Multiple receivers found for method %s", decl.Name), decl.Pos())
 			}
+			if len(decl.Recv.List) == 1 && len(decl.Recv.List[0].Names) == 0 {
+				// An unnamed receiver, `func (*T) m()`, has no name an annotation could refer to. In
+				// particular it must not be looked up positionally (as accFromFieldList does for
+				// unnamed parameters and results), since that would attribute the annotation written
+				// for `result 0` of the method to its receiver. Only the type-based defaults apply.
+				return nilabilitySet{}.checkNilability("", typeOf(decl.Recv.List[0].Type))
+			}
 			return accFromFieldList(set, decl.Recv, false, false)[0]
 		}
 		return EmptyVal
